@@ -115,7 +115,8 @@ theorem tstep_triesOk {t t' : TSt} {b burn : Nat} {op : Op} {top : TOp} {ext : B
       · cases h
       · simp only [Option.some.injEq, Prod.mk.injEq] at h
         rw [← h.1]
-        exact triesAfter_ok (by simpa using hbad) hok
+        simp only [Bool.or_eq_true, not_or, Bool.not_eq_true] at hbad
+        exact triesAfter_ok hbad.2 hok
 
 /-- a step of the try machine is a step of the gas machine with some unwinding outcome (the computed one) -/
 theorem tstep_refines {t t' : TSt} {b burn : Nat} {op : Op} {top : TOp} {ext : Bool} {u : Option (Nat × Bool)}
